@@ -691,6 +691,126 @@ func (s *sim) checkAccessors(box *stateBox, where string) {
 			return
 		}
 	}
+	// aggregates over the lists
+	if all, err := bals.AllBalances(); err != nil || !reflect.DeepEqual(phase0.Balances(all), rawBals) && !(len(all) == 0 && len(rawBals) == 0) {
+		bad("Balances.AllBalances", len(all), len(rawBals))
+		return
+	}
+	if l, err := bals.Length(); err != nil || l != uint64(len(rawBals)) {
+		bad("Balances.Length", l, len(rawBals))
+		return
+	}
+	{
+		next := bals.Iter()
+		for i := 0; ; i++ {
+			b, ok, err := next()
+			if err != nil || ok != (i < len(rawBals)) || (ok && b != rawBals[i]) {
+				bad("Balances.Iter", fmt.Sprintf("%d@%d ok=%v err=%v", b, i, ok, err), len(rawBals))
+				return
+			}
+			if !ok {
+				break
+			}
+		}
+		nextV := vals.Iter()
+		for i := 0; ; i++ {
+			v, ok, err := nextV()
+			if err != nil || ok != (i < len(rawVals)) {
+				bad("Validators.Iter", fmt.Sprintf("entry %d ok=%v err=%v", i, ok, err), len(rawVals))
+				return
+			}
+			if !ok {
+				break
+			}
+			if pk, _ := v.Pubkey(); pk != rawVals[i].Pubkey {
+				bad("Validators.Iter", fmt.Sprintf("entry %d has another pubkey", i), rawVals[i].Pubkey)
+				return
+			}
+		}
+		if ok, _ := vals.IsValidIndex(common.ValidatorIndex(len(rawVals))); ok {
+			bad("Validators.IsValidIndex", "index == count is valid", len(rawVals))
+			return
+		}
+		if len(rawVals) > 0 {
+			if ok, _ := vals.IsValidIndex(common.ValidatorIndex(len(rawVals) - 1)); !ok {
+				bad("Validators.IsValidIndex", "last index is not valid", len(rawVals))
+				return
+			}
+		}
+	}
+	{
+		sum := common.Gwei(0)
+		for _, v := range rawSl {
+			sum += v
+		}
+		if tot, err := sls.Total(); err != nil || tot != sum {
+			bad("Slashings.Total", tot, sum)
+			return
+		}
+	}
+	// altair+: participation registries and inactivity scores, entry by entry
+	if al, ok := st.(altair.AltairLikeBeaconState); ok {
+		for _, which := range []string{"PreviousEpochParticipation", "CurrentEpochParticipation"} {
+			rawP, _ := fieldOf(raw, which).(altair.ParticipationRegistry)
+			var pv *altair.ParticipationRegistryView
+			var err error
+			if which == "PreviousEpochParticipation" {
+				pv, err = al.PreviousEpochParticipation()
+			} else {
+				pv, err = al.CurrentEpochParticipation()
+			}
+			if err != nil {
+				bad(which, err, len(rawP))
+				return
+			}
+			for i := range rawP {
+				if f, err := pv.GetFlags(common.ValidatorIndex(i)); err != nil || f != rawP[i] {
+					bad(fmt.Sprintf("%s[%d]", which, i), f, rawP[i])
+					return
+				}
+			}
+			if r, err := pv.Raw(); err != nil || len(r) != len(rawP) || (len(rawP) > 0 && !reflect.DeepEqual(r, rawP)) {
+				bad(which+".Raw", len(r), len(rawP))
+				return
+			}
+		}
+		rawI, _ := fieldOf(raw, "InactivityScores").(altair.InactivityScores)
+		if iv, err := al.InactivityScores(); err == nil {
+			for i := range rawI {
+				if sc, err := iv.GetScore(common.ValidatorIndex(i)); err != nil || sc != uint64(rawI[i]) {
+					bad(fmt.Sprintf("InactivityScores[%d]", i), sc, rawI[i])
+					return
+				}
+			}
+		}
+	}
+	// bellatrix+: the payload header getter returns the header the encoded state holds
+	if hv := reflect.ValueOf(st).MethodByName("LatestExecutionPayloadHeader"); hv.IsValid() && forkIndexOfState(st) >= 2 {
+		outs := hv.Call(nil)
+		if len(outs) == 2 && outs[1].IsNil() {
+			if rm := outs[0].MethodByName("Raw"); rm.IsValid() {
+				ro := rm.Call(nil)
+				if len(ro) == 2 && ro[1].IsNil() {
+					want := reflect.ValueOf(raw).Elem().FieldByName("LatestExecutionPayloadHeader")
+					type plainSer interface {
+						Serialize(w *codec.EncodingWriter) error
+					}
+					if want.IsValid() && want.CanAddr() {
+						a, aok := ro[0].Interface().(plainSer)
+						b, bok := want.Addr().Interface().(plainSer)
+						if aok && bok {
+							var ab, bb bytes.Buffer
+							if a.Serialize(codec.NewEncodingWriter(&ab)) != nil || b.Serialize(codec.NewEncodingWriter(&bb)) != nil || !bytes.Equal(ab.Bytes(), bb.Bytes()) {
+								bad("LatestExecutionPayloadHeader", ro[0].Elem().Interface(), want.Interface())
+								return
+							}
+							s.res.Stat("setter_checks", 1)
+						}
+					}
+				}
+			}
+		}
+	}
 	// setters: on a copy, change exactly one field; the original is untouched
 	origBytes := serializeState(st)
 	type setter struct {
